@@ -93,6 +93,22 @@ def attribToPassOn (current : Attrs) (elAttrs : Attrs) : Except PyErr Attrs := d
   let a ← inheritAttrib elAttrs "dummy" [] true Gen.attribWithCustomInheritance
   inheritAttrib current "dummy" a false Gen.attribWithCustomInheritance
 
+/-- the element's own attributes as `_attrib_to_pass_on` reads them: on anything but a shape a `style` attribute is
+    spelled out into its declarations first (`parse_css_declarations` into a plain dict: every name is accepted), so
+    that descendants inherit property by property and the declarations win over the element's own attributes -/
+def ownAttribForPassOn (el : Node) : Except PyErr Attrs :=
+  match el.attrs.get "style" with
+  | some st =>
+    if (Gen.shapeFields.lookup (Node.stripNs el.tag)).isSome then pure el.attrs
+    else do
+      let (assigned, _) ← Style.parseDecls (fun _ => true) (fun _ => true) st
+      pure (assigned.foldl (fun m (k, v) => m.set k v) (el.attrs.del "style"))
+  | none => pure el.attrs
+
+/-- `_attrib_to_pass_on(current_attrib, el)` on an element -/
+def attribToPassOnEl (current : Attrs) (el : Node) : Except PyErr Attrs :=
+  ownAttribForPassOn el >>= fun own => attribToPassOn current own
+
 /-- `_drop_default_attrib(attrib)` -/
 def dropDefaultAttrib (a : Attrs) : Except PyErr Attrs := do
   let mut out := a
